@@ -799,6 +799,13 @@ def fixed_graphs() -> List[Tuple[str, Dict[str, Any]]]:
                                _el(2, [['d', 'ELEMENT', True, [3, 3]]]), _el(3, [['leaf', 'INT', False, 1]])]}),
         ('null-refs', {'elems': [_el(0, [['n', 'ELEMENT', False, None], ['ns', 'ELEMENT', True, [None, 1, None]]]), _el(1, [])]}),
         ('every-type', {'elems': [_el(0, every, typ='DmeEverything'), _el(1, [['ID', 'STRING', False, 'not the uuid']])]}),
+        # unusual sizes: hundreds of attributes on one element, a 70 000-entry array, a 70 000-character string, a string array
+        # with more distinct strings than a 16-bit table index can count, a long chain of elements
+        ('many-attributes', {'elems': [_el(0, [[f'attr_{k:03d}', 'INT', False, k] for k in range(400)])]}),
+        ('big-arrays', {'elems': [_el(0, [['ints', 'INT', True, list(range(-35000, 35000))], ['text', 'STRING', False, 'xy' * 35000],
+                                          ['blob', 'BINARY', False, '00ff' * 40000], ['after', 'INT', False, 7]])]}),
+        ('many-strings', {'elems': [_el(0, [['names', 'STRING', True, [f's{k}' for k in range(66000)]], ['after', 'STRING', False, 's1']])]}),
+        ('long-chain', {'elems': [_el(k, [['next', 'ELEMENT', False, k + 1]] if k < 299 else [['end', 'BOOL', False, True]]) for k in range(300)]}),
     ]
 
 
